@@ -7,7 +7,7 @@ recorded trace with the monitor clauses P05_* of spec/Pipeline.tla."""
 from checks import chan_common as cc
 from checks import chan_model
 
-LEVEL = "exploration"
+LEVEL = "model_checking"
 
 
 def scenarios(thorough):
@@ -36,7 +36,7 @@ def scenarios(thorough):
 
 def run(chk, replay=None):
     scns = scenarios(chk.thorough)
-    chan_model.model_check(chk, "C05")
+    chan_model.model_check(chk, "C05", scns)
     n_pct, dfs = (1500, 4000) if chk.thorough else (150, 700)
     cc.explore_and_validate(chk, "C05", scns, n_pct, dfs, bound=2, label="wakeup")
     chk.rule = ("cases = schedules of the real server with the poll timeout infinite, over %d scenarios (response sizes around send_bytes / watermark / SO_SNDBUF, "
